@@ -4,6 +4,7 @@ use rt::run::{Job, Plan, Tier};
 use rt::tok::{Tok1, Tok16, Tok64, Tok8, TokZ};
 
 use crate::hist_sized::SizedEngine;
+use crate::sched::SchedEngine;
 use crate::FLAVOUR;
 
 fn job<E: rt::run::Engine + 'static>(e: E, cases: u64, flavour: &'static str) -> Job {
@@ -39,6 +40,53 @@ pub fn plan(prop: &str, tier: Tier) -> Option<Plan> {
             "proptest-generated histories with the 'counts' weight table; after every step every count accessor of every slot (Arc::count, strong_count on Arc/OffsetArc/ArcBorrow/ArcUnion/ArcUnionBorrow, through from_ptr for raw pointers, through ArcSwap::load) is compared with the model's owner count, and counts are also read inside with_arc / with_raw_offset_arc / ArcBorrow::with_arc callbacks. Non-trivial: >=3 distinct handle kinds had their accessors evaluated at a count >=3 on an allocation that has (had) a raw-pointer or union owner, and >=1 count was read inside a callback at count >=3.".into(),
             vec!["UniqueArc has no count accessor; its count is observed after shareable()".into()],
             sized_jobs("C04", if q { 48 } else { 160 }, if q { 6000 } else { 120_000 }, both),
+        ),
+        "C02" => (
+            "exploration",
+            "proptest-generated multi-thread programs (2-4 threads, <=8 ops each from clone-via-any-path / read / drop / convert kind / read count / send a handle / receive) over handles of every kind, executed under the harness-owned scheduler: every atomic op on a reference count, every payload access and every mailbox op is a scheduling point decided by generated schedule bytes; loads may observe stale stores (generated staleness bytes, coherence respected); happens-before is tracked with vector clocks per the release-sequence and fence rules. Oracle: destructor and deallocation ordered after every payload access and every count access of every thread; no access after release; destroyed exactly once; freed once. Non-trivial: >=2 threads accessed the value or its count, >=1 preemption happened and >=1 tracked block was freed during the run.".into(),
+            vec![
+                "sampled schedules under an operational view-based model (interleavings x coherence-respecting stale loads x release sequences x fences); no load-buffering / out-of-thin-air executions".into(),
+                "SeqCst is treated as AcqRel reading the latest store (a restriction of allowed behaviours)".into(),
+                "2-4 threads, <=8 ops per thread".into(),
+            ],
+            vec![
+                job(SchedEngine::<Tok8>::new("C02", 24), if q { 60_000 } else { 3_000_000 }, "all"),
+                job(SchedEngine::<Tok16>::new("C02", 24), if q { 12_000 } else { 500_000 }, "all"),
+                job(SchedEngine::<Tok8>::new("C02", 24), if q { 12_000 } else { 500_000 }, "nostd"),
+            ],
+        ),
+        "C03" => (
+            "exploration",
+            "(a) histories: 'uniqueness' weight table; every uniqueness-gated API (is_unique, get_mut, get_unique on Arc<T> / Arc<dyn> / Arc<HeaderSlice>, try_unique, UniqueArc::try_from, the in-place branch of make_mut / make_unique / OffsetArc::make_mut) must answer success iff the model has exactly one owner, and on decline return the same handle to the same allocation; (b) schedules: threads poll for uniqueness (is_unique+get_mut / get_mut / get_unique) and write through the granted reference while others read, clone, send and drop; the write must be ordered (vector clocks) after every read other threads made. Non-trivial: (a) an API evaluated at >=2 owners where a co-owner is not a plain Arc and later at 1 owner on the same allocation; (b) a poll was granted and wrote, >=2 threads accessed the value, >=1 preemption.".into(),
+            vec!["schedule part: sampled schedules under the operational memory model of DESIGN.md section 4.4".into(), "deprecated Arc::write / as_mut_slice and ThinArc::with_arc_mut gates are exercised by the thin/uninit engines".into()],
+            {
+                let mut v = sized_jobs("C03", if q { 48 } else { 128 }, if q { 6000 } else { 100_000 }, both);
+                v.push(job(SchedEngine::<Tok8>::new("C03", 24), if q { 50_000 } else { 2_000_000 }, "all"));
+                v.push(job(SchedEngine::<Tok8>::new("C03", 24), if q { 10_000 } else { 300_000 }, "nostd"));
+                v
+            },
+        ),
+        "C08" => (
+            "exploration",
+            "(a) histories: 'copy-on-write' weight table; Arc::make_mut, Arc::make_unique, OffsetArc::make_mut, Arc<HeaderSlice>::make_mut followed by a write of a fresh value, with co-owners of every kind: in place (same block, zero Clone calls) iff sole owner, else exactly one Clone, a fresh block with count 1, the old allocation loses one owner and every other handle still reads the old value (checked through every slot after every step); (b) schedules: one or more threads make_mut+write while others read/clone/drop; the write must not race with any read, and a thread that keeps holding a handle must keep reading the value it saw. Non-trivial: (a) make_mut on an allocation shared with a non-Arc handle; (b) make_mut redirected to a copy under >=1 preemption.".into(),
+            vec!["schedule part: sampled schedules under the operational memory model of DESIGN.md section 4.4".into()],
+            {
+                let mut v = sized_jobs("C08", if q { 48 } else { 128 }, if q { 6000 } else { 100_000 }, both);
+                v.push(job(SchedEngine::<Tok8>::new("C08", 24), if q { 50_000 } else { 1_500_000 }, "all"));
+                v.push(job(SchedEngine::<Tok8>::new("C08", 24), if q { 10_000 } else { 300_000 }, "nostd"));
+                v
+            },
+        ),
+        "C09" => (
+            "exploration",
+            "(a) histories: 'unwrap' weight table; try_unwrap, try_unique, UniqueArc::try_from, UniqueArc::into_inner, unwrap_or_clone with co-owners of every kind: the value is moved out (same Tok identity, destructor not run, block freed in that step) iff sole owner, otherwise the same handle comes back (same address, zero Clone calls) or, for unwrap_or_clone, a fresh clone comes back and one owner is released; (b) schedules: 2-4 threads racing try_unwrap / try_unique / try_from+into_inner / unwrap_or_clone / drop on handles to common values: afterwards every value was destroyed exactly once (a value moved out twice is a double drop, never moved out nor destroyed is a leak), the block freed once, and the winner's accesses are ordered after the others'. Non-trivial: (a) one declined and one successful unwrap in the same history; (b) >=2 threads attempted an unwrap with >=1 preemption.".into(),
+            vec!["schedule part: sampled schedules under the operational memory model of DESIGN.md section 4.4".into()],
+            {
+                let mut v = sized_jobs("C09", if q { 48 } else { 128 }, if q { 6000 } else { 100_000 }, both);
+                v.push(job(SchedEngine::<Tok8>::new("C09", 24), if q { 50_000 } else { 1_500_000 }, "all"));
+                v.push(job(SchedEngine::<Tok8>::new("C09", 24), if q { 10_000 } else { 300_000 }, "nostd"));
+                v
+            },
         ),
         _ => return None,
     };
